@@ -3,6 +3,8 @@ package np
 import (
 	"os"
 	"strings"
+
+	"golang.org/x/tools/go/ssa"
 )
 
 func init() { register("ABS", propAbsDebug) }
@@ -39,3 +41,21 @@ func propAbsDebug(c *Ctx) {
 	}
 }
 
+
+func init() { register("PANICS", propPanicsDebug) }
+
+func propPanicsDebug(c *Ctx) {
+	c.Rule("P", "debug", "panics/typeasserts in inbound context", 0)
+	for _, fn := range sortedFuncs(c.P.ReachFrom(inboundRoots)) {
+		Instrs(fn, func(in ssa.Instruction) {
+			switch x := in.(type) {
+			case *ssa.Panic:
+				println("PANIC", FuncName(fn), Term(x.X), c.pos(in))
+			case *ssa.TypeAssert:
+				if !x.CommaOk {
+					println("ASSERT", FuncName(fn), Term(x.X), TypeStr(x.AssertedType), c.pos(in))
+				}
+			}
+		})
+	}
+}
